@@ -28,6 +28,8 @@ SPEC = {
     'exhaustive': True,
 }
 
+SPEC['explanation'] += ' T9.plus follows private helpers of parse_qsl. T12.hex: without a decoding table, int(text, 16) must be guarded by a hex-digit test.'
+SPEC['decided'] += []
 MANIFEST = {
     'technique': 'constant-table folding + regex-AST extraction with set-relation checks; syntactic sanitizer-flow (taint) check; typed exception-escape analysis over inlined CFG paths',
     'text': ('Decides, exhaustively over the character x component matrix, that no character emitted raw by a quoting '
